@@ -202,15 +202,18 @@ def extended_assembly(u):
     idxA = [v for v in u.path.ghost["__where_counts__"].values()]
     u.ensure((D.rows == n + m) if not isinstance(D.rows, int) else True, "system_is_(n+m)x(n+m)")
     # rows of active components: unit rows; the row index i < a corresponds to the i-th active component
-    whereA = u.it.lib["numpy.where"]
     kron = lambda p, q: z3.If(p == q, z3.RealVal(1), z3.RealVal(0))
-    blocks = D.blocks
-    tA = blocks[0][0]
-    colA = tA.coo[2].vec()
+    # the increasing enumerations of the active / inactive components (np.where), independent of how the blocks
+    # are put together: row t < a is the t-th active component, row a + t the t-th inactive one
+    cache = list(u.path.ghost.get("__where_cache__", {}).values())
+    encA = next((v for (v, m_) in cache if getattr(m_, "neg_of", None) is None), None)
+    encI = next((v for (v, m_) in cache if getattr(m_, "neg_of", None) is not None), None)
+    u.ensure(encA is not None and encI is not None, "enumerations_of_the_active_set_and_of_its_complement_computed")
+    if encA is None or encI is None:
+        return
+    colA = encA
     u.ensure(z3.Implies(i < a, z3.And(av.f(colA.f(i)), e(i, j) == z3.If(j < n, kron(j, colA.f(i)), 0))), "active_rows_are_unit_rows_e_act(i)")
-    fh = blocks[1][0]
-    inact = fh.gather[2]
-    r = inact.f(i - a)
+    r = encI.f(i - a)
     u.ensure(z3.Implies(z3.And(i >= a, i < n), z3.And(z3.Not(av.f(r)), e(i, j) == z3.If(j < n, eH(r, j) + lam * kron(r, j), eJ(j - n, r)))), "inactive_rows_are_rows_of[H0+lamb*I|J^T]")
     c = i - n
     u.ensure(z3.Implies(i >= n, e(i, j) == z3.If(j < n, eJ(c, j), -(lam / (1 + lam * rho)) * kron(c, j - n))), "constraint_rows_are[J|-lamb/(1+lamb*rho)*I]")
